@@ -364,8 +364,14 @@ func genWellFormed(r *rng) request {
 		o["input"] = in
 		if r.intn(6) == 0 {
 			o["suite"] = map[string]any{"hash_function": "SHA1", "code_digits": 6, "challenge_format": 1, "include_challenge": true}
-			if r.intn(2) == 0 {
+			switch r.intn(4) {
+			case 0, 1:
 				delete(o, "raw_suite")
+				o["input"] = map[string]any{"challenge_hex": "3132333435363738"}
+			case 2:
+				// contradictory request: a blank (white-space) raw suite next to a suite object — validate() lets it through
+				// and the handler hands the blank text to MustRawSuite
+				o["raw_suite"] = pick(r, []string{" ", "\t", "  \n", "\u00a0"})
 				o["input"] = map[string]any{"challenge_hex": "3132333435363738"}
 			}
 		}
@@ -399,7 +405,7 @@ func genWellFormed(r *rng) request {
 func genHostile(r *rng) request {
 	paths := []string{"/totp/generate", "/totp/validate", "/hotp/generate", "/hotp/validate", "/ocra/generate", "/ocra/validate", "/ocra/suites", "/ocra/suite", "/otp/url", "/otp/secret", "/", "/nope", "/docs", "/totp/generate/", "/TOTP/generate"}
 	p := pick(r, paths)
-	switch r.intn(10) {
+	switch r.intn(11) {
 	case 0:
 		return request{method: pick(r, []string{"GET", "PUT", "DELETE", "PATCH", "HEAD", "OPTIONS"}), path: p, body: []byte(`{"secret":"GEZDGNBVGY3TQOJQ"}`)}
 	case 1:
@@ -434,6 +440,12 @@ func genHostile(r *rng) request {
 		if r.intn(3) == 0 {
 			delete(o, "suite")
 		}
+		return request{method: "POST", path: pick(r, []string{"/ocra/generate", "/ocra/validate"}), body: jsonObj(o)}
+	case 8:
+		// contradictory but individually valid parts: a usable suite object next to a blank / unusable raw suite text
+		o := map[string]any{"secret": "GEZDGNBVGY3TQOJQGEZDGNBVGY3TQOJQ", "raw_suite": pick(r, []string{" ", "\t", " \n ", "\u00a0", "\u3000"}),
+			"suite": map[string]any{"hash_function": pick(r, []string{"SHA1", "SHA256", "SHA512"}), "code_digits": pick(r, []int{6, 8, 10}), "challenge_format": 1, "include_challenge": true},
+			"input": map[string]any{"challenge_hex": "3132333435363738"}, "code": "123456"}
 		return request{method: "POST", path: pick(r, []string{"/ocra/generate", "/ocra/validate"}), body: jsonObj(o)}
 	case 6:
 		return request{method: "POST", path: p, body: bytes.Repeat([]byte(`{"secret":"GEZDGNBVGY3TQOJQ","a":"`+strings.Repeat("x", 1000)+`"}`), 1)}
@@ -513,6 +525,23 @@ type violation struct {
 	Impl  string `json:"impl"`
 	Model string `json:"model"`
 	HTTP  string `json:"http_request"`
+}
+
+// retype restores the Go types the request builder uses after a JSON round trip (numbers come back as float64)
+func retype(m map[string]any) map[string]any {
+	for k, v := range m {
+		if x, ok := v.(float64); ok {
+			switch k {
+			case "timestamp":
+				m[k] = int64(x)
+			case "period":
+				m[k] = int(x)
+			default:
+				m[k] = uint64(x)
+			}
+		}
+	}
+	return m
 }
 
 func main() {
@@ -633,6 +662,51 @@ func main() {
 		vr := request{method: "POST", path: strings.Replace(rq.path, "generate", "validate", 1), body: jsonObj(f), probe: true}
 		reqs = append(reqs, vr)
 		results = append(results, send(keep, base, vr))
+		if rq.path != "/ocra/generate" {
+			// neighbouring steps: first with an explicit skew that covers the distance, then the same distance with the skew
+			// omitted (default 0: must be refused) — a server that remembers anything of the previous request answers wrongly
+			shift := func(g map[string]any, d int64) {
+				if rq.path == "/hotp/generate" {
+					c, _ := g["counter"].(uint64)
+					g["counter"] = c + uint64(d)
+				} else {
+					per := int64(30)
+					switch p := g["period"].(type) {
+					case int:
+						if p > 0 {
+							per = int64(p)
+						}
+					}
+					ts, _ := g["timestamp"].(int64)
+					g["timestamp"] = ts + d*per
+				}
+			}
+			var g1, g2 map[string]any
+			json.Unmarshal(rq.body, &g1)
+			json.Unmarshal(rq.body, &g2)
+			g1, g2 = retype(g1), retype(g2)
+			d := int64(1 + r.intn(3))
+			if r.intn(2) == 0 {
+				d = -d
+			}
+			g1["code"], g2["code"] = resp.Code, resp.Code
+			shift(g1, d)
+			shift(g2, d)
+			g1["skew"] = uint64(3)
+			delete(g2, "skew")
+			ok1, ok2 := true, true
+			if rq.path == "/totp/generate" {
+				t1, _ := g1["timestamp"].(int64)
+				ok1, ok2 = t1 > 0, t1 > 0
+			}
+			if ok1 && ok2 {
+				for _, g := range []map[string]any{g1, g2} {
+					v2 := request{method: "POST", path: strings.Replace(rq.path, "generate", "validate", 1), body: jsonObj(g), probe: true}
+					reqs = append(reqs, v2)
+					results = append(results, send(keep, base, v2))
+				}
+			}
+		}
 		chains++
 	}
 	alive := send(fresh(), base, request{method: "GET", path: "/"}).status == 200
